@@ -264,6 +264,63 @@ func (e *secretExec) step(s *SecStep) {
 	}
 	p := e.p
 	switch s.Op {
+	case "retain":
+		// values that were read stay what they were while OTHER values are decrypted (other
+		// entry, other Meta, other key, other length; both APIs): a returned slice is the
+		// caller's, not a scratch buffer
+		m := e.withStored(e.stored)
+		otherKey := append([]byte{}, p.Key...)
+		otherKey[s.N%32] ^= byte(1 + s.N%255)
+		otherKey[0] |= 1
+		other := bytes.Repeat([]byte{byte('A' + s.N%26), byte('a' + (s.N/26)%26)}, 1+(len(p.Plain)+s.N%40)/2)
+		m2 := meta.NewMeta()
+		if err := m2.AddEncrypted("o", other, otherKey); err != nil {
+			return
+		}
+		if err := m.AddEncrypted("o2", string(other[:len(other)/2]), p.Key); err != nil {
+			return
+		}
+		type heldVal struct {
+			what string
+			got  []byte
+			want []byte
+		}
+		var held []heldVal
+		hold := func(what string, got []byte, err error, want []byte) {
+			if err != nil {
+				o.Violate("C19", "roundtrip", what+": "+err.Error(), nil)
+				return
+			}
+			held = append(held, heldVal{what, got, append([]byte{}, want...)})
+		}
+		verify := func(after string) {
+			for _, h := range held {
+				e.sig("retain", after)
+				if !bytes.Equal(h.got, h.want) {
+					o.Violate("C19", "returned-value-changed", fmt.Sprintf("the value returned by %s no longer equals the plaintext after %s", h.what, after), map[string]string{"after": after})
+					return
+				}
+			}
+		}
+		b1, err := m.GetEncryptedBytes("k", p.Key)
+		hold("GetEncryptedBytes(k)", b1, err, p.Plain)
+		b2, err := m2.GetEncryptedBytes("o", otherKey)
+		hold("GetEncryptedBytes(o) of another Meta under another key", b2, err, other)
+		verify("a read of another Meta")
+		s3, err := m.GetEncryptedString("o2", p.Key)
+		hold("GetEncryptedString(o2)", []byte(s3), err, other[:len(other)/2])
+		verify("a string read of another entry")
+		b4, err := m.GetEncryptedBytes("o2", p.Key)
+		hold("GetEncryptedBytes(o2)", b4, err, other[:len(other)/2])
+		verify("a bytes read of another entry")
+		_, _ = m2.GetEncryptedBytes("o", p.Key) // fails: wrong key
+		verify("a failed read")
+		b5, err := m.GetEncryptedBytes("k", p.Key)
+		hold("GetEncryptedBytes(k) again", b5, err, p.Plain)
+		verify("a second read of the same entry")
+		if len(b1) > 0 && len(b5) > 0 && &b1[0] == &b5[0] {
+			o.Violate("C19", "returned-value-changed", "two reads of the same entry return the same backing array", map[string]string{"after": "aliasing"})
+		}
 	case "roundtrip":
 		tk, sealed, js, ok := e.buildToken("r")
 		if !ok {
@@ -477,6 +534,7 @@ func genSecret(r *Rand, g GenCfg) Plan {
 		p.Steps = append(p.Steps, SecStep{Op: "flip_all", Hi: -1, Step: (n * 8 / 1500) | 1}, SecStep{Op: "flip_all", Lo: lo, Hi: lo + 300}, SecStep{Op: "flip_all", Hi: 40*8 + 64},
 			SecStep{Op: "flip_all", Lo: (n+40)*8 - 300, Hi: -1}, SecStep{Op: "trunc_all", Hi: 100})
 	}
+	p.Steps = append(p.Steps, SecStep{Op: "retain", N: r.Intn(1 << 16)})
 	p.Steps = append(p.Steps, SecStep{Op: "extend"})
 	for i := 0; i < 4; i++ {
 		p.Steps = append(p.Steps, SecStep{Op: "otherkey", N: r.Intn(256)})
